@@ -92,6 +92,13 @@ impl InnerLiterals {
         InnerLiterals { seq }
     }
 
+    /// Verification hook: the literals of the sequence (bytes, exactness),
+    /// or `None` when the sequence is infinite.
+    #[cfg(ripgrep_verif)]
+    pub(crate) fn verif_literals(&self) -> Option<Vec<(Vec<u8>, bool)>> {
+        verif_seq_literals(&self.seq)
+    }
+
     /// Returns a infinite set of inner literals, such that it can never
     /// produce a matcher.
     pub(crate) fn none() -> InnerLiterals {
@@ -121,6 +128,30 @@ impl InnerLiterals {
             .map_err(Error::regex)?;
         Ok(Some(re))
     }
+}
+
+/// Verification hook: a literal sequence as plain data.
+#[cfg(ripgrep_verif)]
+fn verif_seq_literals(seq: &Seq) -> Option<Vec<(Vec<u8>, bool)>> {
+    seq.literals().map(|lits| {
+        lits.iter().map(|l| (l.as_bytes().to_vec(), l.is_exact())).collect()
+    })
+}
+
+/// Verification hook: run the inner literal extractor on an arbitrary HIR.
+/// Returns the tagged sequence computed by `Extractor::extract` (literals and
+/// the `prefix` flag) and the final sequence of `extract_untagged`.
+#[cfg(ripgrep_verif)]
+pub(crate) fn verif_extract(
+    hir: &Hir,
+) -> ((Option<Vec<(Vec<u8>, bool)>>, bool), Option<Vec<(Vec<u8>, bool)>>) {
+    let ext = Extractor::new();
+    let tseq = ext.extract(hir);
+    let untagged = ext.extract_untagged(hir);
+    (
+        (verif_seq_literals(&tseq.seq), tseq.prefix),
+        verif_seq_literals(&untagged),
+    )
 }
 
 /// An inner literal extractor.
